@@ -322,20 +322,23 @@ var indexProgs = []string{
 func C01_Indexing() {
 	src := indexProgs[vf.Choice("prog", len(indexProgs))]
 	a, _ := AnyObj("a", 1)
+	if sv, ok := a.(*tengo.String); ok && Tier() == 0 {
+		// quick tier: ASCII contents (rune decoding of arbitrary bytes under a
+		// symbolic index multiplies paths; the thorough tier has no such assumption)
+		for k := 0; k < len(sv.Value); k++ {
+			vf.Assume(sv.Value[k] < 0x80)
+		}
+	}
 	var i, j tengo.Object
-	if vf.Choice("ikind", 4) == 0 {
+	if vf.Choice("ikind", 2) == 0 {
 		i = LiteObj("i")
-		if _, isMap := a.(*tengo.Map); isMap {
-			i = renderSafe(i, "i")
-		}
-		if _, isMap := a.(*tengo.ImmutableMap); isMap {
-			i = renderSafe(i, "i")
-		}
-		if _, isErr := a.(*tengo.Error); isErr {
-			i = renderSafe(i, "i")
-		}
 	} else {
 		i = &tengo.Int{Value: vf.Int64("i.i")}
+	}
+	switch a.(type) {
+	case *tengo.Map, *tengo.ImmutableMap, *tengo.Error:
+		// map/error indexing renders the index as text: boundary values
+		i = renderSafe(i, "i")
 	}
 	j = &tengo.Int{Value: vf.Int64("j.i")}
 	b := &tengo.Int{Value: vf.Int64("b.i")}
